@@ -58,7 +58,10 @@ def gen_fields(rng, size, malformed):
             pos = max(pos, end)
         else:
             pos = max(pos, start + 1)
-        fields.append(adef.mk_field(NAMES[i], base, start, end, conv=conv))
+        # a cfg on a field gates its accessors, it does not take the field out of the layout: two fields behind
+        # different (not mutually exclusive) cfgs overlap like any other two (seed C11-8 skipped such pairs)
+        fcfg = rng.choice([None, None, None, None, 'feature = "xa"', 'feature = "xb"', 'feature = "xb"', "unix"])
+        fields.append(adef.mk_field(NAMES[i], base, start, end, conv=conv, cfg=fcfg))
     return fields
 
 
